@@ -9,7 +9,9 @@ namespace Drv
 
 def bgSpecOfJson (j : Json) : Except String BgSpec := do
   let b ← j.getObjVal? "beh"
-  let beh := match jopt b "ends" with
+  let beh := match joptNat j "startFails" with
+    | some e => BgBeh.failsBeforeStarted e
+    | none => match jopt b "ends" with
     | some d => BgBeh.endsAfter (d.getNat?.toOption.getD 0) (joptNat b "exc")
     | none => match joptNat b "excOnCancel" with
       | some e => BgBeh.failsWhenCancelled e
@@ -33,6 +35,7 @@ def flabOfJson (j : Json) : Except String FLab := do
   | "exitBegin" => pure .exitBegin
   | "blockLeft" => pure .blockLeft
   | "outcome" => pure (.outcome (← nats 1))
+  | "startFailed" => pure (.startFailed (← nat 1))
   | t => throw s!"bad factory label {t}"
 
 def runFactory (j : Json) : Except String Json := do
